@@ -129,7 +129,9 @@ def main(ctx):
     sseen = set()
     for c in g.printed("CASE"):
         # W=e holds a *enctypes2.T: its create key "T" names enctypes.T unless FullTypePath is used (ambiguous by design)
-        if all(f["k"] in RT_KINDS and f["t"] in ("", "nm") and not (f["k"] == "W" and f["v"] == "e") for f in c["f"]) \
+        # EN / EA with v = n hold members that Go's shadowing rule hides (inner V under outer V): JSON cannot carry them
+        if all(f["k"] in RT_KINDS and f["t"] in ("", "nm") and not (f["k"] == "W" and f["v"] == "e")
+               and not (f["k"] in ("EN", "*EN", "EA") and f["v"] == "n") for f in c["f"]) \
                 and len(c["f"]) <= (2 if ctx.quick else 3):
             k = json.dumps(c, sort_keys=True)
             if k not in sseen:
@@ -137,7 +139,7 @@ def main(ctx):
                 cases.append(c)
     for top in ("S", "T1", "T2", "U", "V", "W", "Emb", "EmbPtr", "Str1", "Str2", "Col1", "Col2", "Col3", "L1", "[]anyP", "N", "IS1", "IS64", "IP1", "Tree", "List", "Node", "[]Node", "P", "Ma", "EN", "EA"):
         for v in ("z", "n", "e"):
-            if (top, v) != ("W", "e"):
+            if (top, v) != ("W", "e") and not (top in ("EN", "EA") and v == "n"):
                 cases.append({"f": [], "top": top, "v": v})
     recs = judge(ctx, cases)
     for r_ in recs:
